@@ -57,6 +57,12 @@ func metaSpec(class, name string, ver int, hookBase string) v1alpha1.DecoratorCo
 		}
 	case "ok-finalize":
 		sp.Hooks.Finalize = &v1alpha1.Hook{Webhook: &v1alpha1.Webhook{URL: &url}}
+	case "ok-resync": // legal but unusual resync periods: zero, negative, one second
+		rp := []int32{0, -5, 1}[ver%3]
+		sp.ResyncPeriodSeconds = &rp
+	case "ok-customize": // a customize hook selecting all configmaps: the related informer is opened by the first sync
+		curl := url + "-customize"
+		sp.Hooks.Customize = &v1alpha1.Hook{Webhook: &v1alpha1.Webhook{URL: &curl}}
 	case "d-badresource":
 		sp.Resources[0].Resource = "nonesuch"
 	case "d-badattach":
@@ -71,7 +77,7 @@ func metaSpec(class, name string, ver int, hookBase string) v1alpha1.DecoratorCo
 	return sp
 }
 
-var metaClasses = []string{"ok", "ok", "ok2", "ok-etag", "ok-finalize", "d-badresource", "d-badattach", "d-nohooks", "d-badwebhook", "d-badselector"}
+var metaClasses = []string{"ok", "ok", "ok2", "ok-etag", "ok-finalize", "ok-resync", "ok-customize", "d-badresource", "d-badattach", "d-nohooks", "d-badwebhook", "d-badselector"}
 
 func TestVerifMeta(t *testing.T) {
 	seed, n := vs.Params(40)
@@ -85,6 +91,9 @@ func TestVerifMeta(t *testing.T) {
 		sim := vs.NewSim(metaDefs)
 		hook := vs.NewHookServer(sim)
 		hook.Handler = func(name string, req map[string]interface{}) vs.HookAnswer {
+			if strings.HasSuffix(name, "-customize") {
+				return vs.HookAnswer{Code: 200, Body: []byte(`{"relatedResources":[{"apiVersion":"v1","resource":"configmaps"}]}`)}
+			}
 			return vs.HookAnswer{Code: 200, Body: []byte(`{"attachments":[]}`)}
 		}
 		hookBase := strings.TrimSuffix(*hook.URL(""), "/")
@@ -109,7 +118,7 @@ func TestVerifMeta(t *testing.T) {
 			m := map[string]int{}
 			for _, e := range sim.LogCopy() {
 				if e.Verb == "hook" {
-					m[e.Hook]++
+					m[strings.TrimSuffix(e.Hook, "-customize")]++ // a customize call is a call on behalf of that instance
 				}
 			}
 			return m
@@ -172,13 +181,16 @@ func TestVerifMeta(t *testing.T) {
 			ev["error"] = recErr != nil
 			ev["panic"] = panicked
 			running := vs.M{}
+			instances := vs.M{} // identity of each hosted instance: an untouched controller keeps its instance
 			var wantPaths []string
 			for n2, c := range mc.decoratorControllers {
 				u := *c.dc.Spec.Hooks.Sync.Webhook.URL
 				p := u[strings.LastIndex(u, "/")+1:]
 				running[n2] = p
+				instances[n2] = fmt.Sprintf("%p", c)
 				wantPaths = append(wantPaths, p)
 			}
+			ev["instances"] = instances
 			before := hookPaths()
 			if cur, gerr := thingClient.Namespace("ns1").Get(ctx, "t1", metav1.GetOptions{}); gerr == nil {
 				cur.Object["spec"] = map[string]interface{}{"v": int64(k + 1)}
